@@ -29,6 +29,7 @@ import (
 func init() {
 	vRegister("VerifHarness_C04_SplitBatch", VerifHarness_C04_SplitBatch)
 	vRegister("VerifHarness_C04_SendLoop", VerifHarness_C04_SendLoop)
+	vRegister("VerifHarness_C04_BlockFillsSegment", VerifHarness_C04_BlockFillsSegment)
 }
 
 // a point of which only the marshalled form matters: size bytes, the first one is its id
@@ -309,4 +310,59 @@ func VerifHarness_C04_SendLoop() {
 	vObserve("calls", len(w.calls))
 	q.Close()
 	vReach("C04.sendloop.end")
+}
+
+// BlockFillsSegment: the append side accepts a block iff an empty segment can hold it
+// (footerSize + len(b) <= maxSegmentSize); every accepted block - in particular one that fills
+// its segment to the last byte - is read back and delivered in order, also after a restart.
+func VerifHarness_C04_BlockFillsSegment() {
+	dir := vC04Dir()
+	defer os.RemoveAll(dir)
+	seg := 19
+	if vBool("largerSegment") {
+		seg = 30
+	}
+	q := vC04Open(dir, 1<<20, int64(seg))
+	var pending [][]byte
+	if vBool("blockBefore") { // the large block then needs a roll-over
+		b := []byte{0xA0, vByte("first")}
+		vAssume(q.Append(b) == nil)
+		pending = append(pending, b)
+	}
+	L := seg - footerSize - 1 + vLen("delta", 0, 2) // one below, exactly, one above what a segment holds
+	b := make([]byte, L)
+	for i := range b {
+		b[i] = byte(i + 1)
+	}
+	b[0] = vByte("payload")
+	err := q.Append(b)
+	vAssert((err == nil) == (L <= seg-footerSize), "C04.append-accepts-exactly-what-an-empty-segment-holds")
+	if err == nil {
+		pending = append(pending, b)
+	}
+	if vBool("blockAfter") {
+		a := []byte{0xA1}
+		vAssume(q.Append(a) == nil)
+		pending = append(pending, a)
+	}
+	if vBool("restart") {
+		vAssume(q.Close() == nil)
+		q = vC04Open(dir, 1<<20, int64(seg))
+	}
+	vAssert(q.Empty() == (len(pending) == 0), "C04.empty-iff-nothing-pending")
+	for k := 0; k < len(pending); k++ {
+		got, gerr := vC04Next(q)
+		same := gerr == nil && len(got) == len(pending[k])
+		for i := 0; same && i < len(got); i++ {
+			same = got[i] == pending[k][i]
+		}
+		vAssert(same, "C04.accepted-block-is-read-back-in-order")
+		if gerr != nil {
+			break
+		}
+		vAssert(q.Advance() == nil, "C04.advance-ok")
+	}
+	vObserve("pending", len(pending))
+	q.Close()
+	vReach("C04.fills.end")
 }
